@@ -111,6 +111,22 @@ Theorem await_stop_result : forall s i a r, reachable s ->
 Proof. exact awaiter_result_all. Qed.
 Print Assumptions await_stop_result.
 
+(* every await over the watch cell returns: the four loops of the code --
+   ServiceRunner::_await_stop / _await_start_or_stop (service.rs) and
+   StateWatcher::while_started / wait_stopping_or_stopped (state.rs) -- each
+   `loop { read the state; if cond { return }; changed().await }`.  From the moment the cell
+   has reached the region in which the await's condition holds for good ([settled]: stopped
+   for await_stop; Stopping or later for while_started and wait_stopping_or_stopped; past
+   Starting for await_start_or_stop), two steps of the await, interleaved with ANY other
+   steps, make it return, with a state satisfying its condition. *)
+Theorem every_await_returns : forall s ops i a, reachable s ->
+  nth_error (aws s) i = Some a -> settled (a_kind a) (cell s) = true ->
+  2 <= count_aw i ops ->
+  exists a' r, nth_error (aws (run41 s ops)) i = Some a' /\ a_kind a' = a_kind a /\
+               a_pc a' = ADone r /\ acond (a_kind a) r = true.
+Proof. exact every_await_returns_all. Qed.
+Print Assumptions every_await_returns.
+
 (* the finite facts about one step of the background task were checked on the WHOLE control
    space (6 cell values x 12 program counters x got_panic x permit x 3 x 5 x 3 outcomes) *)
 Theorem background_step_facts : forall c p g pm io ro so, bstep_facts c p g pm io ro so = true.
